@@ -1,0 +1,123 @@
+//go:build verif
+
+// Machine-checked contracts for package mod (the SQLite module). Read as text
+// by the verifier in /verif (gowp); no executable code.
+package mod
+
+// ---------------------------------------------------------------------------
+// Connection attributes (properties C15, C05, C14): the request context always
+// carries exactly the connection's deadline and write time.
+
+//@ spec zeroT(t time.Time) bool = ns(t) == -62135596800000000000
+//@ spec connInv(sc *S3DBConn) bool = sc != nil && sc.ctx != nil &&
+//@     ctxHasDL(sc.ctx) == !zeroT(sc.deadline) && imp(!zeroT(sc.deadline), ctxDL(sc.ctx) == sc.deadline) &&
+//@     hasWT(sc.ctx) == !zeroT(sc.writeTime) && imp(!zeroT(sc.writeTime), wtOf(sc.ctx) == sc.writeTime) &&
+//@     (sc.ctxCancel != nil) == !zeroT(sc.deadline)
+
+// cancelling a context has no effect on the state the contracts talk about
+//@ func S3DBConn.ctxCancel
+//@   trusted
+//@   modifies nothing
+
+//@ func (*S3DBConn).ResetContext
+//@   requires sc != nil
+//@   modifies sc.ctx, sc.ctxCancel
+//@   ensures connInv(sc)
+
+// BEGIN fixes the write time for the transaction unless the connection set one.
+//@ func (*VirtualTable).Begin
+//@   requires c != nil && c.module != nil && connInv(c.module.sc) && c.common != nil && vtOK(c.common)
+//@   modifies c.module.sc.writeTime, c.module.sc.txFixedWriteTime, c.module.sc.ctx, c.module.sc.ctxCancel, c.common.txStart
+//@   ensures inv: connInv(c.module.sc)
+//@   ensures write-time-set: !zeroT(c.module.sc.writeTime)
+//@   ensures explicit-kept: imp(!zeroT(old(c.module.sc.writeTime)), c.module.sc.writeTime == old(c.module.sc.writeTime) && c.module.sc.txFixedWriteTime == old(c.module.sc.txFixedWriteTime))
+//@   ensures fixed: imp(zeroT(old(c.module.sc.writeTime)), c.module.sc.txFixedWriteTime)
+//@   ensures no-effects: puts == old(puts) && deletes == old(deletes)
+
+// xCommit performs no storage request: it only ends the transaction's write time.
+//@ func (*VirtualTable).Commit
+//@   requires c != nil && c.module != nil && connInv(c.module.sc)
+//@   modifies c.module.sc.writeTime, c.module.sc.txFixedWriteTime, c.module.sc.ctx, c.module.sc.ctxCancel
+//@   ensures inv: connInv(c.module.sc) && result == nil
+//@   ensures cleared: !c.module.sc.txFixedWriteTime && imp(old(c.module.sc.txFixedWriteTime), zeroT(c.module.sc.writeTime))
+//@   ensures explicit-kept: imp(!old(c.module.sc.txFixedWriteTime), c.module.sc.writeTime == old(c.module.sc.writeTime))
+//@   ensures no-effects: puts == old(puts) && deletes == old(deletes)
+
+//@ func (*VirtualTable).Rollback
+//@   requires c != nil && c.module != nil && connInv(c.module.sc) && c.common != nil && c.common.Tree != nil && c.common.Tree.Root != nil
+//@   modifies c.module.sc.writeTime, c.module.sc.txFixedWriteTime, c.module.sc.ctx, c.module.sc.ctxCancel, c.common.txStart, c.common.Tree.Root
+//@   ensures inv: connInv(c.module.sc)
+//@   ensures cleared: !c.module.sc.txFixedWriteTime && imp(old(c.module.sc.txFixedWriteTime), zeroT(c.module.sc.writeTime))
+//@   ensures explicit-kept: imp(!old(c.module.sc.txFixedWriteTime), c.module.sc.writeTime == old(c.module.sc.writeTime))
+//@   ensures restored: imp(old(c.common.txStart) != nil, c.common.Tree.Root == old(c.common.txStart)) && c.common.txStart == nil
+//@   ensures no-effects: puts == old(puts) && deletes == old(deletes)
+
+// xSync does the storage commit; a read-only table skips it (C13).
+//@ func (*VirtualTable).Sync
+//@   requires c != nil && c.module != nil && c.module.sc != nil && c.common != nil && vtOK(c.common)
+//@   modifies c.common.txStart, puts, deletes, lastPutPrefix, lastPutName, lastPutOK, *c.common.Tree.Root.crdt.Mast, c.common.Tree.Root.mergedRoots, c.common.Tree.Root.crdt.MergeSources, c.common.Tree.Root.crdt.Source, c.common.Tree.Root.tombstoned
+//@   ensures readonly: imp(c.common.S3Options.ReadOnly || c.common.Tree.Root.readonly, puts == old(puts) && deletes == old(deletes))
+//@   ensures failure-keeps-snapshot: imp(result != nil, c.common.txStart == old(c.common.txStart) && deletes == old(deletes))
+//@   ensures success: imp(result == nil && !c.common.S3Options.ReadOnly, c.common.txStart == nil)
+
+//@ func toSqlite
+//@   modifies nothing
+//@   ensures (result == nil) == (err == nil)
+
+// ---------------------------------------------------------------------------
+// SQLite value <-> Go value (property C08) and which columns an UPDATE assigns
+// (property C02).
+
+// goOf(v): the Go value of a SQLite value: storage class -> dynamic type, injective
+//@ spec goOfOK(r interface{}, v sqlite.Value) bool =
+//@     imp(valType(v) == sqlite.SQLITE_NULL, r == nil) &&
+//@     imp(valType(v) == sqlite.SQLITE_INTEGER, typeis(r, int64) && r.(int64) == valInt64(v)) &&
+//@     imp(valType(v) == sqlite.SQLITE_FLOAT, typeis(r, float64) && fpbits_eq(r.(float64), valFloat(v))) &&
+//@     imp(valType(v) == sqlite.SQLITE_TEXT, typeis(r, string) && r.(string) == valText(v)) &&
+//@     imp(valType(v) == sqlite.SQLITE_BLOB, typeis(r, []byte) && bytes(r.([]byte)) == valBlob(v))
+
+//@ func valueToGo
+//@   modifies nothing
+//@   ensures goOfOK(result, value)
+//@   ensures sqlTyped(result)
+
+// valuesToGo: exactly the arguments that are not flagged no-change are assigned.
+//@ func valuesToGo
+//@   modifies nothing
+//@   ensures result != nil && fresh(result)
+//@   ensures dom: forall j int :: has(result, j) == (0 <= j && j < len(values) && !valNoChange(values[j]))
+//@   ensures vals: forall j int :: imp(has(result, j), goOfOK(result[j], values[j]) && sqlTyped(result[j]))
+//@   loop 1 invariant -1 <= rangeindex && rangeindex < len(values)
+//@   loop 1 invariant forall j int :: has(res, j) == (0 <= j && j <= rangeindex && !valNoChange(values[j]))
+//@   loop 1 invariant forall j int :: imp(has(res, j), goOfOK(res[j], values[j]) && sqlTyped(res[j]))
+//@   loop 1 modifies contents(res)
+
+// setContextResult: Go value -> the matching result call, value unchanged.
+//@ func setContextResult
+//@   requires ctx != nil && ctx.Context != nil
+//@   modifies gf(ctx.Context.ptr, "resKind"), gf(ctx.Context.ptr, "resInt"), gff(ctx.Context.ptr, "resReal"), gfs(ctx.Context.ptr, "resText"), gfs(ctx.Context.ptr, "resBlob")
+//@   ensures null: imp(v == nil, gf(ctx.Context.ptr, "resKind") == 5)
+//@   ensures int: imp(typeis(v, int64), gf(ctx.Context.ptr, "resKind") == 1 && gf(ctx.Context.ptr, "resInt") == v.(int64))
+//@   ensures real: imp(typeis(v, float64), gf(ctx.Context.ptr, "resKind") == 2 && fpbits_eq(gff(ctx.Context.ptr, "resReal"), v.(float64)))
+//@   ensures text: imp(typeis(v, string) && v.(string) != "", gf(ctx.Context.ptr, "resKind") == 3 && gfs(ctx.Context.ptr, "resText") == v.(string))
+//@   ensures text-empty: imp(typeis(v, string) && v.(string) == "", gf(ctx.Context.ptr, "resKind") == 3)
+//@   ensures blob: imp(typeis(v, []byte), gf(ctx.Context.ptr, "resKind") == 4 && gfs(ctx.Context.ptr, "resBlob") == bytes(v.([]byte)))
+
+//@ func mapOp
+//@   modifies nothing
+//@   ensures imp(!usable, result == s3db.OpIgnore)
+//@   ensures imp(usable && in == sqlite.INDEX_CONSTRAINT_EQ, result == s3db.OpEQ)
+//@   ensures imp(usable && in == sqlite.INDEX_CONSTRAINT_GT, result == s3db.OpGT)
+//@   ensures imp(usable && in == sqlite.INDEX_CONSTRAINT_GE, result == s3db.OpGE)
+//@   ensures imp(usable && in == sqlite.INDEX_CONSTRAINT_LT, result == s3db.OpLT)
+//@   ensures imp(usable && in == sqlite.INDEX_CONSTRAINT_LE, result == s3db.OpLE)
+//@   ensures imp(usable && in != sqlite.INDEX_CONSTRAINT_EQ && in != sqlite.INDEX_CONSTRAINT_GT && in != sqlite.INDEX_CONSTRAINT_GE && in != sqlite.INDEX_CONSTRAINT_LT && in != sqlite.INDEX_CONSTRAINT_LE, result == s3db.OpIgnore)
+
+// xColumn during an UPDATE: SQLite flags the columns the statement does not
+// assign (sqlite3_vtab_nochange). For those no result may be set, so that the
+// value reaches xUpdate flagged no-change and valuesToGo leaves the column
+// unassigned: an UPDATE re-stamps exactly the columns it sets (C02).
+//@ func (*Cursor).Column
+//@   requires c != nil && c.common != nil && ctx != nil && ctx.Context != nil
+//@   modifies gf(ctx.Context.ptr, "resKind"), gf(ctx.Context.ptr, "resInt"), gff(ctx.Context.ptr, "resReal"), gfs(ctx.Context.ptr, "resText"), gfs(ctx.Context.ptr, "resBlob")
+//@   ensures nochange: imp(ctxNoChange(ctx), result == nil && gf(ctx.Context.ptr, "resKind") == old(gf(ctx.Context.ptr, "resKind")))
